@@ -63,6 +63,8 @@ func main() {
 		modeLife(os.Args[2:])
 	case "racestress":
 		modeRaceStress(os.Args[2:])
+	case "stoprace":
+		modeStopRace(os.Args[2:])
 	case "witness":
 		modeWitness(os.Args[2:])
 	default:
